@@ -64,7 +64,7 @@ Consume ==
          m == Step(pre, c)
          strict == m.out = e.out /\ m.ret = e.ret /\ ObsEq(ObsOf(m.st), e.post)
          v == Viol(pre, c, [st |-> post, out |-> e.out, ret |-> e.ret], h)
-                \cup (IF \E i \in 1..Len(e.post.ch) : e.post.ch[i].df # DeclDurFall(post.ch[i])
+                \cup (IF \E i \in 1..Len(e.post.ch) : ~DurFallInBand(post.ch[i], e.post.ch[i].df)
                             \/ e.post.ch[i].du # ChanDur(post.ch[i])
                       THEN {"C02.ReportedDuration"} ELSE {})
      IN /\ IF strict /\ v = {} THEN TRUE
